@@ -57,6 +57,10 @@ class BuiltinMixin:
             r = self.call_dunder(v, '__len__', [], st, exits, None)
             if r is not None:
                 return r
+        if isinstance(v.ty, TSet):
+            f = self.UF('set_size_' + _san(v.ty.key), v.ty.sort(), z3.IntSort())
+            self.fact(f(v.t) >= 0)
+            return V(INT, f(v.t))
         if isinstance(v.ty, TMap):
             f = self.UF('map_size_' + _san(v.ty.key), v.ty.sort(), z3.IntSort())
             self.fact(f(v.t) >= 0)
@@ -169,7 +173,17 @@ class BuiltinMixin:
         raise Unsupported('getattr')
 
     def b_sorted(self, args, kw, st, exits, line):
-        raise Unsupported('sorted')
+        v = args[0]
+        if kw:
+            raise Unsupported('sorted with key/reverse')
+        if isinstance(v.ty, TSet):
+            # some ordering of the members (the order itself is not modelled): same size, same members
+            f = self.UF('sorted_set_' + _san(v.ty.key), v.ty.sort(), z3.SeqSort(v.ty.elem.sort()))
+            size = self.UF('set_size_' + _san(v.ty.key), v.ty.sort(), z3.IntSort())
+            out = V(TSeq(v.ty.elem), f(v.t))
+            self.fact(z3.Length(out.t) == size(v.t))
+            return out
+        raise Unsupported(f'sorted of {v.ty}')
 
     def b_next(self, args, kw, st, exits, line):
         raise Unsupported('next')
@@ -322,6 +336,11 @@ class BuiltinMixin:
     def sm_find(self, r, args, kw, st, exits, line):
         return V(INT, z3.IndexOf(r.t, args[0].t, 0))
 
+    def sm_index(self, r, args, kw, st, exits, line):
+        if not self.raise_if(st, z3.Not(z3.Contains(r.t, args[0].t)), 'ValueError', exits, line, 'str.index: substring not found'):
+            return None
+        return V(INT, z3.IndexOf(r.t, args[0].t, 0))
+
     def sm_count(self, r, args, kw, st, exits, line):
         f = self.UF('str_count', SS(), SS(), z3.IntSort())
         st.assume(f(r.t, args[0].t) >= 0)
@@ -365,9 +384,7 @@ class BuiltinMixin:
         outs_states = None
 
         def writeback(newv):
-            if recv_expr is None:
-                raise Unsupported('mutation of a temporary list')
-            yield from self.assign(recv_expr, newv, st, exits)
+            yield from self.write_through(recv_expr, newv, st, exits)
         if name == 'append':
             ety = ty.elem if ty.elem is not NONE else args[0].ty
             nty = TSeq(ety)
@@ -501,16 +518,30 @@ class BuiltinMixin:
             raise Unsupported('dict.setdefault')
         raise Unsupported(f'dict.{name}')
 
+    def write_through(self, recv_expr, newv, st, exits):
+        """in-place mutation of a container: rebind the receiver and, if it aliases a heap location
+        (x = obj.d[k]), that location too"""
+        if recv_expr is None:
+            raise Unsupported('mutation of a temporary container')
+        alias = st.env.get('$alias:' + recv_expr.id) if isinstance(recv_expr, ast.Name) else None
+        for s2 in self.assign(recv_expr, newv, st, exits):
+            if alias is not None:
+                s2.env['$alias:' + recv_expr.id] = alias
+                for s3 in self.assign(alias.t, newv, s2, exits):
+                    yield s3
+            else:
+                yield s2
+
     def set_method(self, recv, name, args, kw, st, exits, line, recv_expr):
         ty = recv.ty
         if name == 'add':
             nv = V(ty, z3.Store(recv.t, self.coerce(args[0], ty.elem).t, z3.BoolVal(True)))
-            for s2 in self.assign(recv_expr, nv, st, exits):
+            for s2 in self.write_through(recv_expr, nv, st, exits):
                 yield s2, NONE_V
             return
         if name == 'discard':
             nv = V(ty, z3.Store(recv.t, self.coerce(args[0], ty.elem).t, z3.BoolVal(False)))
-            for s2 in self.assign(recv_expr, nv, st, exits):
+            for s2 in self.write_through(recv_expr, nv, st, exits):
                 yield s2, NONE_V
             return
         raise Unsupported(f'set.{name}')
